@@ -44,34 +44,35 @@ type goroutineRec struct {
 }
 
 type Interp struct {
-	prog       *ssa.Program
-	cfg        *Config
-	p          *Path
-	f          *termFactory
-	globals    map[*ssa.Global]*Value
-	pkgInit    map[*ssa.Package]int
-	mutexes    map[*Value]*mutexState
-	onceDone   map[*Value]bool
-	steps      int64
-	maxSteps   int64
-	stepLabel  string
-	unwind     int
-	cur        *frame
-	depth      int
-	gos        []goroutineRec
-	funcsSeen  map[*ssa.Function]struct{}
-	inInit     int
-	uniq       map[string]*Value
-	lockLog    []string
-	stubHits   map[string]int
-	divCount   int
-	divMemo    map[divKey][2]*Term
-	lemmaRec   map[string][]lemmaRecord
-	lemmaUses  int
-	lazyCount  int
-	guardCells map[*Value]*guardInfo
-	guardMaps  map[*Map]*guardInfo
-	guardHits  int
+	prog           *ssa.Program
+	cfg            *Config
+	p              *Path
+	f              *termFactory
+	globals        map[*ssa.Global]*Value
+	pkgInit        map[*ssa.Package]int
+	mutexes        map[*Value]*mutexState
+	onceDone       map[*Value]bool
+	steps          int64
+	maxSteps       int64
+	stepLabel      string
+	unwind         int
+	cur            *frame
+	depth          int
+	gos            []goroutineRec
+	funcsSeen      map[*ssa.Function]struct{}
+	inInit         int
+	uniq           map[string]*Value
+	lockLog        []string
+	stubHits       map[string]int
+	divCount       int
+	divMemo        map[divKey][2]*Term
+	lemmaRec       map[string][]lemmaRecord
+	lemmaUses      int
+	lazyCount      int
+	lazyMismatches int
+	guardCells     map[*Value]*guardInfo
+	guardMaps      map[*Map]*guardInfo
+	guardHits      int
 }
 
 // guardInfo ties a piece of state to the mutex documented to protect it.
@@ -350,7 +351,7 @@ func (in *Interp) callSSA(caller *frame, fn *ssa.Function, args []Value, env []V
 		if in.cfg.opaque[name] {
 			sym := false
 			for _, a := range args {
-				if !isConcrete(a) {
+				if !deepConcrete(a, 3) {
 					sym = true
 				}
 			}
@@ -456,6 +457,39 @@ func (in *Interp) callBody(caller *frame, fn *ssa.Function, name string, args []
 	in.cur = saved
 	in.depth--
 	return fr.result
+}
+
+// deepConcrete follows pointers (a few levels) when looking for symbolic data.
+func deepConcrete(v Value, depth int) bool {
+	if !isConcrete(v) {
+		return false
+	}
+	if depth == 0 {
+		return true
+	}
+	switch x := v.(type) {
+	case *Value:
+		if x != nil {
+			return deepConcrete(*x, depth-1)
+		}
+	case Struct:
+		for _, e := range x {
+			if !deepConcrete(e, depth-1) {
+				return false
+			}
+		}
+	case Slice:
+		for _, e := range x {
+			if !deepConcrete(e, depth-1) {
+				return false
+			}
+		}
+	case Iface:
+		if x.t != nil {
+			return deepConcrete(x.v, depth-1)
+		}
+	}
+	return true
 }
 
 // insideStub reports whether st is already active on the stack (so that a
